@@ -239,7 +239,7 @@ def flat(e):
     return out
 
 
-SETUP_OPS = ("set", "obj", "emcy", "para", "#", "inject")
+SETUP_OPS = ("set", "obj", "emcy", "para", "paraalias", "#", "inject")
 
 
 def npre_events(beh, preamble):
@@ -344,6 +344,8 @@ def item_match(pred, obs):
     for a, b in zip(pred, obs):
         if a == -1:
             continue
+        if a == -2 and isinstance(b, int) and b != 0:      # any non-zero integer
+            continue
         if a != b:
             return False
     return True
@@ -369,6 +371,32 @@ def match_lists(pred, obs, ordered):
         return False
 
     return rec(0)
+
+
+def match_with_optional(req, opt, obs, ordered):
+    """required predictions must be observed (in order if ordered); any further observed item
+    must be covered by an optional prediction (kind? with prefix match)"""
+    if not opt:
+        return match_lists(req, obs, ordered)
+    if ordered:
+        k = 0
+        for it in obs:
+            if k < len(req) and item_match(req[k], it):
+                k += 1
+            elif any(item_match(q, it) for q in opt):
+                continue
+            else:
+                return False
+        return k == len(req)
+    rest = list(obs)
+    for r in req:
+        for j, it in enumerate(rest):
+            if item_match(r, it):
+                del rest[j]
+                break
+        else:
+            return False
+    return all(any(item_match(q, it) for q in opt) for it in rest)
 
 
 class Mismatch:
@@ -410,11 +438,8 @@ def compare(behs, results, observe, ordered=True, nsetup_events=0, safety_only=F
             if px:
                 stats["nonempty_pred"] += 1
             opt = [[p[0][:-1]] + list(p[1:]) + ["*"] for p in px if p and isinstance(p[0], str) and p[0].endswith("?")]
-            if opt:
-                # optional predictions (kind?): an observed item they cover is accepted, none is required
-                o = [it for it in o if not any(item_match(q, it) for q in opt)]
-                px = [p for p in px if not (p and isinstance(p[0], str) and p[0].endswith("?"))]
-            if not match_lists(px, o, ordered(st["e"]) if callable(ordered) else ordered):
+            req = [p for p in px if not (p and isinstance(p[0], str) and p[0].endswith("?"))] if opt else px
+            if not match_with_optional(req, opt, o, ordered(st["e"]) if callable(ordered) else ordered):
                 bad = Mismatch(bi, si, "mismatch", px, o, st["e"])
                 break
         if bad is None and status != "ok":
